@@ -60,6 +60,7 @@ class Cons:
     pending: Any = None  # in-flight consume task (concurrent launches)
     finished_at: float | None = None
     dead: bool = False
+    paused: bool = False
 
 
 class World:
@@ -441,6 +442,25 @@ class World:
 
     async def op_requeue(self, op: dict, ev: dict) -> None:
         await self._terminal(op, ev, "requeue")
+
+    async def op_pause(self, op: dict, ev: dict) -> None:
+        """ConsumerT.pause(): consumption pauses; nothing may be lost, duplicated or reordered by it."""
+        c = self._cons(op)
+        if c is None or c.pending is not None or c.paused or c.dead:
+            ev["skipped"] = True
+            return
+        ev["c"] = c.idx
+        await c.obj.pause()
+        c.paused = True
+
+    async def op_unpause(self, op: dict, ev: dict) -> None:
+        c = self._cons(op)
+        if c is None or c.pending is not None or not c.paused or c.dead:
+            ev["skipped"] = True
+            return
+        ev["c"] = c.idx
+        await c.obj.unpause()
+        c.paused = False
 
     async def op_finish(self, op: dict, ev: dict) -> None:
         c = self._cons(op)
